@@ -65,11 +65,13 @@ def equivalent(utype, a, b):
 
 ACCESSORS = ["ham_new", "ham_assign", "faxis", "mol_new", "mol_set_energy", "mol_width", "mode_new", "mode_set_energy",
              "agg_coupling", "agg_coupling_matrix", "cf_reorg", "sd_reorg", "length", "ham_rwa", "mol_adiabatic", "submode", "ham_inplace",
-             "mol_ham", "mol_vib_ham", "ham_diag", "ham_undiag", "dfun_spline", "mol_diabatic", "abs_interp", "cd_interp"]
+             "mol_ham", "mol_vib_ham", "ham_diag", "ham_undiag", "dfun_spline", "mol_diabatic", "abs_interp", "cd_interp",
+             "ham_cutoff_recover", "cf_sum_reorg"]
 LIBCALLS = ["agg_build", "agg_build_env", "agg_build_raises", "agg_rebuild", "get_Hamiltonian", "relaxation_tensor", "rate_matrix",
             "set_rwa", "time_to_frequency_axis", "frequency_to_time_axis", "thermal_state", "molecule_hamiltonian",
             "cf_add", "sd_from_cf", "ft_cf", "abs_calculate", "propagate", "diagonalize", "convert",
-            "cf_underdamped_copy", "cf_underdamped_self_add", "cf_underdamped_inplace_self_add", "sd_underdamped_add"]
+            "cf_underdamped_copy", "cf_underdamped_self_add", "cf_underdamped_inplace_self_add", "sd_underdamped_add",
+            "allstates_loop", "allstates_partial"]
 
 
 class World:
@@ -88,7 +90,8 @@ class World:
                        "context_object_reused_under_same_units", "failing_convert", "hamiltonian_modified_in_place_between_reads", "api_sweep_call",
                        "molecule_hamiltonian_first_built_here", "hamiltonian_diagonalized_here",
                        "context_object_reentered_while_active", "context_object_reentered_under_other_units",
-                       "interpolation_first_used_under_other_units"]
+                       "interpolation_first_used_under_other_units", "generator_body_inside_context",
+                       "half_consumed_generator_finished_later"]
     required_faults = ["F1_simfault", "F2_library_call_raises", "F3_unknown_unit"]
     components = {
         "real": ["Manager unit state and conversions", "energy_units / frequency_units / length_units", "set_current_units",
@@ -226,6 +229,7 @@ class Runner:
         self.ta = qr.TimeAxis(0.0, 100, 5.0)
         self._agg = None
         self._vibref = None
+        self.partial_generators = []
 
         @enforce_energy_units_context
         def inside_only():
@@ -542,6 +546,9 @@ class Runner:
         if name in ("faxis", "dfun_spline", "abs_interp", "cd_interp") and u == "nm":
             self.ctx.ev(i, "set", name, "noop-nm")
             return
+        if name == "cf_sum_reorg" and self.eu_depth() == 0:
+            self.ctx.ev(i, "set", name, "noop-outside")
+            return
         if name == "cf_reorg" and self.eu_depth() == 0:
             # constructor is documented to require an energy-units context
             try:
@@ -580,6 +587,28 @@ class Runner:
                 obj = qr.Hamiltonian(data=from_internal(u, E))
                 obj.set_rwa([0, 1])
                 store = E
+            elif name == "ham_cutoff_recover":
+                # couplings reduced by a cut-off given in the active units, then given back
+                if u == "nm":
+                    self.ctx.ev(i, "set", name, "noop-nm")
+                    return
+                E = numpy.array([[0.0, 0.0, 0.0], [0.0, e, e / 5.0], [0.0, e / 5.0, 1.1 * e]])
+                obj = qr.Hamiltonian(data=from_internal(u, E))
+                obj.subtract_cutoff_coupling(float(from_internal(u, e / 10.0)))
+                mid = numpy.array(obj.data)
+                Em = E.copy()
+                Em[1, 2] = Em[2, 1] = e / 5.0 - e / 10.0
+                check(numpy.all(numpy.abs(mid - from_internal(u, Em)) <= RTOL * numpy.abs(from_internal(u, e))), "value-read-equals-conversion",
+                      lambda: "op %d: Hamiltonian after subtract_cutoff_coupling under %r reads %r" % (i, u, mid.tolist()))
+                obj.recover_cutoff_coupling()
+                store = E
+            elif name == "cf_sum_reorg":
+                c1 = self._make_cf("cf_reorg", v)
+                c2 = self._make_cf("cf_reorg", float(from_internal(u, e / 2.0)))
+                obj = (c1 + c2) if int(e * 1e6) % 2 == 0 else c1
+                if obj is c1:
+                    c1.add_to_data(c2)
+                store = 1.5 * e
             elif name == "ham_diag":
                 # a calculator call that rewrites the stored matrix: diagonalisation requested under the active units
                 E = numpy.array([[0.0, 0.0, 0.0], [0.0, e, e / 5.0], [0.0, e / 5.0, 1.1 * e]])
@@ -735,7 +764,7 @@ class Runner:
                 got = self.m.convert_length_2_current_u(e)
                 exp = e / F_LENGTH[lu]
                 u = lu
-            elif name in ("ham_new", "ham_assign", "ham_inplace", "ham_diag", "ham_undiag"):
+            elif name in ("ham_new", "ham_assign", "ham_inplace", "ham_diag", "ham_undiag", "ham_cutoff_recover"):
                 got = numpy.array(obj.data)
                 exp = from_internal(u, e)
             elif name == "ham_rwa":
@@ -808,7 +837,7 @@ class Runner:
             elif name in ("agg_coupling", "agg_coupling_matrix"):
                 got = obj.get_resonance_coupling(0, 1)
                 exp = float(from_internal(u, e))
-            elif name in ("cf_reorg", "sd_reorg"):
+            elif name in ("cf_reorg", "sd_reorg", "cf_sum_reorg"):
                 got = obj.get_reorganization_energy()
                 exp = float(from_internal(u, e))
             else:
@@ -948,6 +977,22 @@ class Runner:
         elif name == "diagonalize":
             a = self.built()
             th = a.diagonalize
+        elif name in ("allstates_loop", "allstates_partial"):
+            # a public generator: its body runs interleaved with the caller's code, which must keep seeing its own units
+            a = self.built()
+            seen = []
+
+            def th():
+                it = a.allstates(mult=1)
+                k = 0
+                for item in it:
+                    seen.append((self.m.get_current_units("energy"), self.m.get_current_units("length")))
+                    k += 1
+                    if name == "allstates_partial" and k >= 1:
+                        break
+                if name == "allstates_partial":
+                    self.partial_generators.append(it)        # finished (or dropped) later, under whatever units are active then
+                    self.ctx.probe("generator_left_half_consumed")
         elif name == "convert":
             th = lambda: qr.convert(1.0, "eV", to="1/cm")
         else:
@@ -957,6 +1002,23 @@ class Runner:
             raised = None
         except Exception as e:
             raised = e
+        if name.startswith("allstates"):
+            for (eu, lu) in seen:
+                check(equivalent("energy", eu, self.cur["energy"]) and equivalent("length", lu, self.cur["length"]),
+                      "library-call-changed-units",
+                      lambda: "op %d: inside the caller's loop over Aggregate.allstates() the active units are %r/%r, the caller's are %r/%r"
+                      % (i, eu, lu, self.cur["energy"], self.cur["length"]))
+            if seen and self.depth >= 1:
+                self.ctx.probe("generator_body_inside_context")
+            # generators left half-consumed earlier are finished now
+            while self.partial_generators and name == "allstates_loop":
+                g = self.partial_generators.pop()
+                try:
+                    for _ in g:
+                        pass
+                except Exception:
+                    pass
+                self.ctx.probe("half_consumed_generator_finished_later")
         if self.depth >= 1:
             self.ctx.probe("libcall_inside_context")
         if raised is not None:
